@@ -654,3 +654,129 @@ func integrationLogKeyRule(o *Ob) {
 	o.Check(e.Arg(rt, 0) == "p1[i]" && e.Arg(dd, 0) == "p1[i]", "integration-arg", "the stages of a chain must belong to the iteration's integration", rt)
 	o.Check(e.Arg(dd, 1) == e.Arg(sn, 0), "same-log", "dedup and set-notifies must use the same notification log", sn)
 }
+
+// reloadKeepsNotifyingRule: a configuration reload replaces the dispatcher.  For C01 the replacement must be
+// complete: once the old dispatcher is stopped a new one is started on every path; it reads the same alert
+// provider, routes with the tree built from the new configuration and notifies through a pipeline that holds the
+// integrations of every receiver some route refers to, the silencer, the new inhibitor, the time intervals and the
+// notification log.
+func reloadKeepsNotifyingRule(o *Ob) {
+	e := o.E
+	fn := o.Fn("(*am/app.reloader).reload")
+	nd := o.One(e.Calls(fn, "am/dispatch.NewDispatcher"), "new-dispatcher", "reload must build the new dispatcher", fn)
+	o.Site(nd, "reload: new dispatcher")
+	pl := o.One(e.Calls(fn, "(*am/notify.PipelineBuilder).New"), "new-pipeline", "reload must build the notification pipeline", fn)
+	nrs := o.Some(e.Calls(fn, "am/dispatch.NewRoute"), "new-route", "reload must build the routing tree", fn)
+	tree := ""
+	for _, nr := range nrs {
+		// every tree built here is the tree of the new configuration (equal trees render alike)
+		o.Check(e.Arg(nr, 0) == "p0.Route" && e.Arg(nr, 1) == "nil", "new-route-args", "the routing tree must be built from the new configuration's root route", nr)
+		tree = e.X(fn, nr.(*ssa.Call))
+	}
+	o.Check(e.Arg(nd, 0) == "recv.alerts", "dispatcher-alerts", "the new dispatcher must read the instance's alert provider, reads "+clip(e.Arg(nd, 0)), nd)
+	o.Check(e.Arg(nd, 1) == tree, "dispatcher-route", "the new dispatcher must route with the tree of the new configuration", nd)
+	o.Check(e.Arg(nd, 2) == e.X(fn, pl.(*ssa.Call)), "dispatcher-pipeline", "the new dispatcher must notify through the pipeline built for the new configuration", nd)
+	// pipeline parts
+	rmap := "makemap:map[string][]am/notify.Integration"
+	ni := o.One(e.Calls(fn, "am/inhibit.NewInhibitor"), "new-inhibitor", "reload must build the new inhibitor", fn)
+	o.Check(e.Arg(pl, 1) == rmap, "pipeline-receivers", "the pipeline must be built from the receiver map of this reload, gets "+clip(e.Arg(pl, 1)), pl)
+	o.Check(e.Arg(pl, 3) == e.X(fn, ni.(*ssa.Call)), "pipeline-inhibitor", "the pipeline must hold the new inhibitor", pl)
+	o.Check(e.Arg(pl, 4) == "recv.silencer", "pipeline-silencer", "the pipeline must hold the silencer", pl)
+	o.Check(strings.HasPrefix(e.Arg(pl, 5), "am/timeinterval.NewIntervener("), "pipeline-intervals", "the pipeline must hold the time intervals of the new configuration", pl)
+	o.Check(e.Arg(pl, 7) == "recv.notificationLog", "pipeline-nflog", "the pipeline must hold the notification log", pl)
+	// the receiver map: every receiver some route refers to
+	var mu *ssa.MapUpdate
+	for _, in := range AllInstrs(fn) {
+		if m, ok := in.(*ssa.MapUpdate); ok && e.X(fn, m.Map) == rmap {
+			o.Check(mu == nil, "receivers-one-writer", "the receiver map is written in more than one place", m)
+			mu = m
+		}
+	}
+	if o.Check(mu != nil, "receivers-filled", "the receiver map is never filled", nil) {
+		o.Site(mu, "reload: receivers[name] = integrations")
+		l := e.LoopOf(mu)
+		if o.Check(l != nil, "receivers-loop", "the receiver map must be filled in a loop over the configured receivers", mu) {
+			coll, _ := e.RangeOver(l)
+			o.Check(coll == "p0.Receivers", "receivers-range", "the loop must range over all configured receivers, ranges over "+coll, mu)
+			k := e.X(fn, mu.Key)
+			o.Check(k == "p0.Receivers[i].Name", "receivers-key", "integrations must be filed under the receiver's name, key is "+k, mu)
+			v := e.X(fn, mu.Value)
+			o.Check(strings.HasPrefix(v, "am/config/receiver.BuildReceiverIntegrations(p0.Receivers[i],") && strings.HasSuffix(v, "#0"), "receivers-value", "what is filed must be the integrations built from this receiver, is "+clip(v), mu)
+			used := LRe(`makemap:map\[string\]struct\{\}\[p0\.Receivers\[i\]\.Name\]#1`, true)
+			buildOK := LRe(`\(am/config/receiver\.BuildReceiverIntegrations\(p0\.Receivers\[i\],.*\)#1 == nil\)`, true)
+			o.Check(!loopBackWithout(o, l, IsInstr(mu), e.CutContradicting(used, buildOK)), "receivers-skipped", "a receiver that a route refers to can be left out of the pipeline", mu)
+		}
+	}
+	// which receivers are in use: every node of the tree
+	n := 0
+	for _, w := range e.Calls(fn, "(*am/dispatch.Route).Walk") {
+		lit := e.FuncValue(w.Common().Args[1])
+		if lit == nil {
+			continue
+		}
+		for _, in := range AllInstrs(lit) {
+			if m, ok := in.(*ssa.MapUpdate); ok && strings.HasPrefix(e.X(lit, m.Map), "makemap:map[string]struct{}") {
+				n++
+				o.Check(e.Arg(w, 0) == tree, "used-tree", "the receivers in use must be collected from the tree the dispatcher routes with", w)
+				o.Check(e.X(lit, m.Key) == "p0.RouteOpts.Receiver", "used-key", "the receiver in use is the route's receiver, is "+e.X(lit, m.Key), m)
+				o.Check(len((&Walk{Fn: lit, Barrier: IsInstr(m)}).FromEntry().Returns()) == 0, "used-skip", "a route's receiver can be left out of the set of receivers in use", m)
+			}
+		}
+	}
+	o.Check(n == 1, "used-collect", "the set of receivers in use must be collected by one walk over the routing tree", nil)
+	wk := o.Fn("(*am/dispatch.Route).Walk")
+	{
+		var self ssa.CallInstruction
+		var rec ssa.CallInstruction
+		for _, in := range AllInstrs(wk) {
+			if c, ok := in.(*ssa.Call); ok {
+				if !c.Call.IsInvoke() && e.X(wk, c.Call.Value) == "p0" && len(c.Call.Args) == 1 && e.X(wk, c.Call.Args[0]) == "recv" {
+					self = c
+				}
+				if calleeName(&c.Call) == "(*am/dispatch.Route).Walk" {
+					rec = c
+				}
+			}
+		}
+		if o.Check(self != nil && rec != nil, "walk-shape", "Route.Walk must visit the node and walk its children", nil) {
+			o.Check(len((&Walk{Fn: wk, Barrier: IsInstr(self)}).FromEntry().Returns()) == 0, "walk-self", "Route.Walk can return without visiting the node", self)
+			o.Check(e.Arg(rec, 0) == "recv.Routes[i]" && e.Arg(rec, 1) == "p0", "walk-child-args", "Route.Walk must hand the same visitor to every child", rec)
+			if l := e.LoopOf(rec); o.Check(l != nil, "walk-loop", "children must be walked in a loop", rec) {
+				coll, _ := e.RangeOver(l)
+				o.Check(coll == "recv.Routes" && len(e.EarlyExits(l)) == 0 && !loopBackWithout(o, l, IsInstr(rec), nil), "walk-all", "Route.Walk must reach every child", rec)
+			}
+		}
+	}
+	// started on every path once the old one is stopped
+	var run ssa.Instruction
+	for _, g := range e.GoSites(fn) {
+		if g.Fn != nil && fnName(g.Fn) == "(*am/dispatch.Dispatcher).Run" && len(g.Args) > 0 && e.X(fn, g.Args[0]) == e.X(fn, nd.(*ssa.Call)) {
+			run = g.Instr
+		}
+	}
+	if o.Check(run != nil, "run", "the new dispatcher is never started", nd) {
+		o.Site(run, "reload: go newDispatcher.Run")
+		stops := e.Calls(fn, "(*am/dispatch.Dispatcher).Stop")
+		o.Check(len(stops) >= 1, "stop-old", "the old dispatcher is no longer stopped (two dispatchers would notify)", nil)
+		for _, s := range stops {
+			o.ForcedAfter(s, "run-after-stop", "once the old dispatcher is stopped a new one must be started on every path", IsInstr(run))
+		}
+		var st ssa.CallInstruction
+		for _, c := range e.Calls(fn, "(*sync/atomic.Pointer[T]).Store") {
+			if e.Arg(c, 0) == "recv.dispatcher" {
+				st = c
+			}
+		}
+		if o.Check(st != nil, "publish", "the new dispatcher is never published (stop and the API would keep using the old one)", nil) {
+			o.Check(e.Arg(st, 1) == e.X(fn, nd.(*ssa.Call)), "publish-value", "what is published must be the new dispatcher", st)
+			o.ForcedAfter(run, "publish-forced", "the started dispatcher must be published on every path", IsInstr(st))
+		}
+	}
+}
+
+func init() {
+	reg("C01", "C01.24", "T1,T8,T11", "a reload keeps notifications flowing: after the old dispatcher is stopped a new one is started and published on every path; it reads the same provider, routes with the new tree and its pipeline holds every receiver in use, silencer, new inhibitor, time intervals and notification log", func(o *Ob) {
+		reloadKeepsNotifyingRule(o)
+		o.MinSites(3)
+	})
+}
